@@ -149,6 +149,35 @@ Fixpoint ordered (H : list lock) (p : list instr) : Prop :=
   | Read _ :: r | Commit _ :: r => ordered H r
   end.
 
+(** the same discipline for an arbitrary comparison of locks *)
+Fixpoint ordered_by (lt : lock -> lock -> bool) (H : list lock) (p : list instr) : Prop :=
+  match p with
+  | [] => H = []
+  | Acq l :: r => (forall h, In h H -> lt h l = true) /\ ordered_by lt (l :: H) r
+  | Rel l :: r => In l H /\ ordered_by lt (removeb l H) r
+  | Read _ :: r | Commit _ :: r => ordered_by lt H r
+  end.
+
+(** what a comparison sort with "less" function [cmp] guarantees about its output: no element is
+    strictly less than an earlier one.  When [cmp] does not separate two distinct names (e.g. a
+    case-insensitive comparison) both arrangements of them pass. *)
+Fixpoint weak_sortedb (cmp : lock -> lock -> bool) (ls : list lock) : bool :=
+  match ls with
+  | [] => true
+  | x :: r => forallb (fun y => negb (cmp y x)) r && weak_sortedb cmp r
+  end.
+Fixpoint strict_sortedb (cmp : lock -> lock -> bool) (ls : list lock) : bool :=
+  match ls with
+  | [] => true
+  | x :: r => forallb (cmp x) r && strict_sortedb cmp r
+  end.
+
+(** a comparison that is NOT a total order on names: it ignores case.  The harness names the
+    datasets 1000+j "dXjj" and 2000+j "dxjj"; folding maps both to one key. *)
+Definition fold_case (l : lock) : lock :=
+  match l with LDs n => if N.leb 2000 n then LDs (n - 1000) else LDs n | _ => l end.
+Definition fold_ltb (a b : lock) : bool := lock_ltb (fold_case a) (fold_case b).
+
 (** datasets whose snapshot the program still relies on (commits before re-reading) *)
 Fixpoint needs (p : list instr) : list lock :=
   match p with
